@@ -11,7 +11,7 @@
  * with short=<bytes> a write first transfers that many bytes successfully (short write) and the
  * next write call on the descriptor fails with <errno>.
  * JV_SHIM_GATE="<event>:<n>:<dir>": at the nth occurrence of event (open|write|fsync|mmap|close|
- * openret) on the db path, create <dir>/reached and wait until <dir>/go exists.
+ * openret|stat|statret) on the db path, create <dir>/reached and wait until <dir>/go exists.
  */
 #define _GNU_SOURCE
 #include <dlfcn.h>
@@ -68,6 +68,10 @@ static off64_t (*real_lseek64)(int, off64_t, int);
 static void *(*real_mmap)(void *, size_t, int, int, int, off_t);
 static void *(*real_mmap64)(void *, size_t, int, int, int, off64_t);
 static int (*real_sync_file_range)(int, off64_t, off64_t, unsigned int);
+struct statx;
+static int (*real_statx)(int, const char *, int, unsigned int, struct statx *);
+static int (*real_fstat)(int, struct stat *);
+static int (*real_fstat64)(int, struct stat64 *);
 
 static void init(void) {
     if (initialised) return;
@@ -94,6 +98,9 @@ static void init(void) {
     real_mmap = dlsym(RTLD_NEXT, "mmap");
     real_mmap64 = dlsym(RTLD_NEXT, "mmap64");
     real_sync_file_range = dlsym(RTLD_NEXT, "sync_file_range");
+    real_statx = dlsym(RTLD_NEXT, "statx");
+    real_fstat = dlsym(RTLD_NEXT, "fstat");
+    real_fstat64 = dlsym(RTLD_NEXT, "fstat64");
     const char *p = getenv("JV_SHIM_DB");
     if (p) strncpy(db_path, p, sizeof(db_path) - 1);
     const char *l = getenv("JV_SHIM_LOG");
@@ -124,8 +131,15 @@ static int tracked(int fd) { return fd >= 0 && fd < MAXFD && is_db[fd]; }
 
 static uint64_t fsize(int fd) {
     struct stat st;
-    if (fstat(fd, &st) == 0) return (uint64_t)st.st_size;
-    return 0;
+    if (real_fstat) {
+        if (real_fstat(fd, &st) == 0) return (uint64_t)st.st_size;
+        return 0;
+    }
+    off64_t cur = real_lseek64 ? real_lseek64(fd, 0, SEEK_CUR) : -1;
+    if (cur < 0) return 0;
+    off64_t end = real_lseek64(fd, 0, SEEK_END);
+    real_lseek64(fd, cur, SEEK_SET);
+    return end < 0 ? 0 : (uint64_t)end;
 }
 
 static void logrec(uint32_t type, int64_t off, uint64_t len, uint64_t size_after, int64_t result, const void *payload, uint64_t plen) {
@@ -516,4 +530,33 @@ void *mmap64(void *addr, size_t len, int prot, int flags, int fd, off64_t off) {
         pthread_mutex_unlock(&mu);
     }
     return real_mmap64(addr, len, prot, flags, fd, off);
+}
+
+
+/* file metadata queries on the database descriptor: gate events "stat" (before) and "statret" (after) */
+int statx(int dirfd, const char *path, int flags, unsigned int mask, struct statx *buf) {
+    init();
+    int t = tracked(dirfd) && (path == NULL || path[0] == 0);
+    if (t) gate("stat");
+    int r = real_statx ? real_statx(dirfd, path, flags, mask, buf) : -1;
+    if (t) gate("statret");
+    return r;
+}
+
+int fstat(int fd, struct stat *buf) {
+    init();
+    int t = tracked(fd);
+    if (t) gate("stat");
+    int r = real_fstat(fd, buf);
+    if (t) gate("statret");
+    return r;
+}
+
+int fstat64(int fd, struct stat64 *buf) {
+    init();
+    int t = tracked(fd);
+    if (t) gate("stat");
+    int r = real_fstat64(fd, buf);
+    if (t) gate("statret");
+    return r;
 }
